@@ -52,6 +52,14 @@ PLANS = {
         rule='MC: every character sequence (MC_Wrap) and every word sequence (MC_Words) in scope; random: paragraphs of 1..60 words (wide, combining) split across text nodes and em/strong/code/span/a/i, bare / max_wrap_width / inside blockquote or li, widths 1..40; non-trivial = renders to at least two lines; distinct by sha256(html,width,cfg)',
         assumptions=['reference greedy wrapper Greedy() is the declarative definition in spec/Wrap.tla', 'words consisting only of zero-width characters are outside the claim (as in the quantifier)'],
     ),
+    'C12': dict(
+        fams=[('c12', dict(quick=3000, thorough=60000), {})],
+        mc=[MC_WRAP_PRE],
+        nontrivial=lambda rec: any(r['res']['k'] == 'ok' and len(r['res']['lines']) >= 2 for r in rec.get('runs', [])),
+        rule='MC: every character sequence over {a, wide, space, newline, tab} in Pre mode (MC_Wrap); random: one <pre> of 1..8 lines (words, runs of 1..5 spaces, tabs, wide chars, inline elements, <br>), bare or inside li/blockquote, widths 1..60, rich lines and string routes; non-trivial = Ok with at least two output lines; distinct by sha256(html,width,cfg)',
+        assumptions=['trailing spaces are compared modulo right-stripping (the statement allows their removal, it does not demand it)',
+                     'blank output pieces are not attributed to a source line'],
+    ),
     'C03': dict(
         fams=[('c03', dict(quick=3000, thorough=60000), {})],
         mc=[MC_WRAP_MARKS, MC_BLOCK],
